@@ -116,6 +116,19 @@ def build(cfg, mon):
                     mon.exit(i)
             return rest()
         middlewares.append(mw)
+    elif cfg['mw'] == 'raise-notif':
+        # a middleware that fails (raises) for notifications: whether dispatch() then raises or answers is not the point - IF it
+        # answers, the answer lists exactly the calls, in order, and nothing for the notification
+        async def mw(request, context, handler):
+            i = request.params[0] if request.params else -1
+            mon.enter(i)
+            try:
+                if request.id is None:
+                    raise RuntimeError('%s middleware failure %d' % (MARK, i))
+                return await handler(request, context)
+            finally:
+                mon.exit(i)
+        middlewares.append(mw)
     elif cfg['mw'] != 'none':
         async def mw(request, context, handler):
             i = request.params[0] if request.params else -1
@@ -270,6 +283,17 @@ def check(cfg, choices, out, mon, unhandled, rec):
     def viol(sig, expected_, observed):
         rec.violation(sig, dict(cfg=cfg, choices=list(choices)), expected=expected_, observed=observed)
         return 'bad:' + sig
+    if cfg['mw'] == 'raise-notif':
+        if out[0] == 'raise':
+            return ('ok-raised', mon.max_inflight)
+        if out[0] != 'ret':
+            return viol('C10:%s' % out[0], 'a response or the middleware\'s exception', out[1])
+        want_ids = [id_of(i) for i, (kind, is_call) in enumerate(cfg['elems']) if is_call]
+        got = json.loads(out[1][0]) if out[1] else []
+        got_ids = [g.get('id') for g in got] if isinstance(got, list) else 'not an array'
+        if not typed_eq(got_ids, want_ids):
+            return viol('C10:a batch in which a middleware failed for a notification is answered with other entries than the calls\' (in order)', want_ids, got)
+        return ('ok-answered', mon.max_inflight)
     if out[0] != 'ret':
         return viol('C10:%s' % out[0], 'a response', out[1])
     exp, runs = expected(cfg)
@@ -336,6 +360,11 @@ def gen_cases(ctx):
                     yield dict(part='main', concurrent=conc, mw='none', eh='none', elems=elems, via=via)
                     if n == 2:
                         yield dict(part='stack', concurrent=conc, mw='before', eh='gate', elems=elems, via=via)
+    for conc in (True, False):
+        for n in (2, 3):
+            for elems in itertools.product([('g0ok', True), ('g0ok', False), ('g1ok', True), ('g0perr', True)], repeat=n):
+                if sum(1 for _, c in elems if not c) == 1:
+                    yield dict(part='stack', concurrent=conc, mw='raise-notif', eh='none', elems=elems)
     four = [('g1ok', True), ('g2ok', True), ('g1perr', True), ('g1ok', False), ('plain', True), ('v1ok', True)]
     for conc in (True, False):
         for elems in itertools.product(alphabet if not ctx.quick else four, repeat=4):
